@@ -525,6 +525,7 @@ def _in_flow_layout(context, box, index, child, new_children, page_is_empty,
     if not getattr(child, 'first_letter_style', None):
         child.first_letter_style = first_letter_style
     child_position_y = child.position_y
+    previous_next_page = next_page
     (new_child, resume_at, next_page, next_adjoining_margins,
      collapsing_through, max_lines) = block_level_layout(
          context, child, bottom_space, skip_stack,
@@ -549,6 +550,8 @@ def _in_flow_layout(context, box, index, child, new_children, page_is_empty,
                 remove_placeholders(
                     context, [new_child], absolute_boxes, fixed_boxes)
                 new_child = None
+                # The break found inside the child is forgotten with it.
+                next_page = previous_next_page
             elif can_break and border_page_overflow:
                 # The child border/padding overflows the page area, do the
                 # layout again with a higher bottom_space value.
